@@ -430,22 +430,44 @@ class TOPDirector(SectionLineParser):
         definition = {tag: parameters}
         self.topology.defines.update(definition)
 
+    def _open_condition_in_itp(self):
+        """
+        Condition of the #ifdef/#ifndef section that is still
+        open in the molecule lines collected so far, if any.
+        """
+        inverse = {"ifdef": "ifndef", "ifndef": "ifdef"}
+        meta = None
+        for line in self.current_itp:
+            if line.startswith("#ifdef") or line.startswith("#ifndef"):
+                condition, tag = line.split()[:2]
+                meta = {'tag': tag, 'condition': condition.replace("#", "")}
+            elif line.startswith("#else") and meta:
+                meta = {'tag': meta['tag'], 'condition': inverse[meta['condition']]}
+            elif line.startswith("#endif"):
+                meta = None
+        return meta
+
     def parse_include(self, line):
         """
         parse include statemnts
         """
         path = line.split()[1].strip('\"')
-        if self.current_meta:
+        current_meta = self.current_meta
+        if current_meta is None and self.current_itp:
+            # pragmas that follow a moleculetype in the same file are
+            # collected with the lines of that molecule
+            current_meta = self._open_condition_in_itp()
+        if current_meta:
            # the current file is between ifdef
            # however tag is not in defines we have
            # read so the file is not read
-           if self.current_meta["condition"] == "ifdef"\
-              and self.current_meta["tag"] not in self.topology.defines:
+           if current_meta["condition"] == "ifdef"\
+              and current_meta["tag"] not in self.topology.defines:
                  return
            # the current file is between ifndef
            # so if tag is defined we ignore this file
-           elif self.current_meta["condition"] == "ifndef"\
-              and self.current_meta["tag"] in self.topology.defines:
+           elif current_meta["condition"] == "ifndef"\
+              and current_meta["tag"] in self.topology.defines:
                  return
 
         if self.cwdir:
